@@ -2,7 +2,9 @@ package checks
 
 import (
 	"fmt"
+	"runtime"
 	"strings"
+	"sync"
 	"testing"
 	"testing/synctest"
 )
@@ -23,4 +25,25 @@ func bubble(t *testing.T, f func()) (leaked bool) {
 	}()
 	synctest.Test(t, func(t *testing.T) { f() })
 	return false
+}
+
+// parallel runs f(i) for i in [0,n) on all cores.
+func parallel(n int, f func(i int)) {
+	workers := runtime.NumCPU()
+	var wg sync.WaitGroup
+	ch := make(chan int, 64)
+	for w := 0; w < workers; w++ {
+		wg.Add(1)
+		go func() {
+			defer wg.Done()
+			for i := range ch {
+				f(i)
+			}
+		}()
+	}
+	for i := 0; i < n; i++ {
+		ch <- i
+	}
+	close(ch)
+	wg.Wait()
 }
